@@ -95,11 +95,11 @@ Fixpoint seq_concat {A} (l : list (res (list A))) : res (list A) :=
    nofix is the code before them (kept for the before-fix notes and the revert tests).
      fix_D31     : a named level that the circuit lacks yields no node instead of KeyError
      fix_overlap : run() reads the backend columns of a wildcard key without popping them
-     fix_short   : (proposed) a pattern whose last name is a sub-circuit denotes no node
-     fix_popwild : (proposed) a population inside a dict-form wildcard key is split into one column per unit *)
+     fix_short   : (landed, D87) a pattern whose last name is a sub-circuit denotes no node
+     fix_popwild : (landed, D88) a population inside a dict-form wildcard key is split into one column per unit *)
 Record fixes := { fix_D31 : bool; fix_overlap : bool; fix_short : bool; fix_popwild : bool }.
 Definition nofix : fixes := {| fix_D31 := false; fix_overlap := false; fix_short := false; fix_popwild := false |}.
-Definition asis : fixes := {| fix_D31 := true; fix_overlap := true; fix_short := false; fix_popwild := false |}.
+Definition asis : fixes := {| fix_D31 := true; fix_overlap := true; fix_short := true; fix_popwild := true |}.
 Definition allfixes : fixes := {| fix_D31 := true; fix_overlap := true; fix_short := true; fix_popwild := true |}.
 
 Fixpoint get_nodes_gen (F : fixes) (t : tree) (v : varid) (pat : list string) {struct t} : res (list path) :=
@@ -191,7 +191,7 @@ Fixpoint chk (km kl ks : bool) (t : tree) (pat : list string) : bool :=
       end
   end.
 Definition resolvable_gen (F : fixes) := chk (fix_D31 F) false (fix_short F).
-Definition resolvable := chk true false false.
+Definition resolvable := chk true false true.     (* = not_too_long: the only guard left *)
 Definition names_resolve := chk false true true.
 Definition not_too_long := chk true false true.
 Definition not_too_short := chk true true false.
